@@ -154,8 +154,8 @@ class SInt:
         if isinstance(o, int) and o & (o - 1) == 0 and s.bits is not None:
             return _from_bits(s.bits[:o.bit_length() - 1])
         hi = (o - 1) if isinstance(o, int) else (None if o.hi is None else o.hi - 1)
-        if s.lo is not None and s.lo >= 0 and s.hi is not None and isinstance(o, int) and s.hi < o:
-            return s
+        if isinstance(o, int) and s.lo is not None and s.hi is not None and s.lo // o == s.hi // o:
+            return s - (s.lo // o) * o          # the whole interval lies in one period: no mod term needed
         return _mk(s.t % T(o), 0, hi)
 
     def __rmod__(s, o):
@@ -282,9 +282,20 @@ class HInt(SInt):
     __slots__ = ("dec",)
 
     def __mod__(s, o):
-        if isinstance(o, int) and o == s.dec[0]:
-            return s.dec[1]
+        m, r, q = s.dec
+        if isinstance(o, int) and o == m:
+            return r
+        if isinstance(o, int) and o > 0 and o % m == 0 and isinstance(q, int):
+            return Engine.compose(q % (o // m), m, r)
         return SInt.__mod__(s, o)
+
+    def __floordiv__(s, o):
+        m, r, q = s.dec
+        if isinstance(o, int) and o == m and q is not None:
+            return q
+        if isinstance(o, int) and o > 0 and o % m == 0 and isinstance(q, int):
+            return q // (o // m)
+        return SInt.__floordiv__(s, o)
 
 
 numbers.Integral.register(SInt)
@@ -446,7 +457,8 @@ class Engine:
     sym = True
 
     def __init__(self, timeout_ms=60000, max_decisions=20000, retry_ms=240000, seed=0, witness_cap=2,
-                 index_concretize_limit=0):
+                 index_concretize_limit=0, path_seconds=300):
+        self.path_seconds = path_seconds
         self.timeout_ms, self.retry_ms, self.max_decisions, self.seed = timeout_ms, retry_ms, max_decisions, seed
         self.n_queries = self.n_unsat = self.n_sat = self.n_unknown_q = 0
         self.solver_time = 0.0
@@ -503,8 +515,17 @@ class Engine:
         t = q * m + r
         self.solver.add(r >= 0, r < m, t >= lo, t <= hi)
         h = HInt(t, lo, hi)
-        h.dec = (m, SInt(r, 0, m - 1))
+        h.dec = (m, SInt(r, 0, m - 1), None)
         self.inputs[name] = h
+        return h
+
+    @staticmethod
+    def compose(q, m, r):
+        """the integer q*m + r for a concrete q and a symbolic r in [0, m)  (x // m is q and x % m is r without solver work)"""
+        if isinstance(r, int):
+            return q * m + r
+        h = HInt(q * m + r.t, q * m + (r.lo or 0), q * m + (r.hi if r.hi is not None else m - 1))
+        h.dec = (m, r, q)
         return h
 
     def bits(self, name, w):
@@ -593,7 +614,15 @@ class Engine:
             if not c:
                 raise PathEnd()
             return
+        c = z3.simplify(c)
+        if z3.is_true(c):
+            return
         self.solver.add(c)
+        r = z3.is_false(c) and "unsat" or self._check()      # an assumption must leave the path feasible (vacuity guard)
+        if r == "unsat":
+            raise PathEnd()
+        if r == "unknown":
+            self.unknown.append(("assume", str(c)[:80]))
 
     def fork(self, c):
         if isinstance(c, bool):
@@ -687,7 +716,7 @@ class Engine:
     def _violation(self, label, model):
         ins, ufs = self._model_inputs(model)
         self.violated[label] = self.violated.get(label, 0) + 1
-        if sum(1 for v in self.violations if v["label"] == label) < 3:
+        if sum(1 for v in self.violations if v["label"] == label) < 1:
             self.violations.append({"label": label, "inputs": ins, "uf": ufs, "decisions": len(self.decisions)})
 
     def check(self, cond, label):
@@ -778,6 +807,7 @@ class Engine:
                 elif r == "unknown":
                     self.unknown.append(("exception", label))
             finally:
+                _alarm(0)
                 if tracing:
                     sys.setprofile(None)
             self.n_decisions += len(self.decisions)
@@ -798,7 +828,7 @@ class Engine:
         if event == "call":
             co = frame.f_code
             fn = co.co_filename
-            if "/probables/" in fn:
+            if "/probables/" in fn and co.co_flags & 0x1:     # functions only (no module / class bodies)
                 self.functions.add(fn.split("/probables/", 1)[1][:-3].replace("/", ".") + ":" + getattr(co, "co_qualname", co.co_name))
 
     def summary(self):
@@ -812,6 +842,18 @@ class Engine:
 
 
 _MISSING = object()
+
+
+def _on_alarm(signum, frame):
+    raise Budget()
+
+
+def _alarm(seconds):
+    import signal
+    import threading
+    if threading.current_thread() is threading.main_thread():
+        signal.signal(signal.SIGALRM, _on_alarm)
+        signal.alarm(int(seconds))
 
 
 def _short(d, n=12):
